@@ -61,7 +61,9 @@ int   plan_parse(plan_t *p, FILE *fp);               /* 0 ok */
 /* fault encoding: call kind in bits 24.., outcome in bits 16..23, parameter in low 16 */
 enum { FC_READ = 1, FC_WRITE = 2, FC_ACCEPT = 3, FC_CLOSE = 4, FC_OPEN = 5, FC_CONNECT = 6, FC_SOCKET = 7, FC_BIND = 8, FC_LISTEN = 9 };
 enum { FO_FULL = 0, FO_SHORT = 1, FO_EINTR = 2, FO_EAGAIN = 3, FO_EIO = 4, FO_EMFILE = 5, FO_ENOENT = 6,
-       FO_ECONNREFUSED = 7, FO_ECONNABORTED = 8, FO_EADDRINUSE = 9, FO_EPIPE = 10, FO_EACCES = 11, FO_NMAX };
+       FO_ECONNREFUSED = 7, FO_ECONNABORTED = 8, FO_EADDRINUSE = 9, FO_EPIPE = 10, FO_EACCES = 11,
+       FO_ETRANSIENT = 12,     /* a stream read that fails once (EINTR under a handler without SA_RESTART, a server that hiccups) on a stream that works again afterwards */
+       FO_NMAX };
 #define FAULT(call, outcome, param) (((call) << 24) | ((outcome) << 16) | ((param) & 0xffff))
 #define F_CALL(f)  (((f) >> 24) & 0xff)
 #define F_OUT(f)   (((f) >> 16) & 0xff)
